@@ -1,4 +1,5 @@
 let () =
   match Array.to_list Sys.argv with
   | _ :: "codec" :: file :: _ -> Codec_driver.main file
-  | _ -> prerr_endline "usage: driver codec <cases>"; exit 2
+  | _ :: "sys" :: file :: props -> Sys_driver.main file props
+  | _ -> prerr_endline "usage: driver codec <cases> | sys <log> [props...]"; exit 2
